@@ -71,6 +71,7 @@ type c04Seq struct {
 	curve  int   // curve value of that phase
 	all    int   // number of cycles in total
 	allReq []int // requests of all cycles of the execution (the curve value changes during the history)
+	cyc    []*Cycle
 	reason string
 }
 
@@ -124,12 +125,12 @@ func c04Exec(t *testing.T, base *world.Scenario, algo world.AlgoSpec, start int,
 		}
 		// the request of a cycle: what it tried to write (also when the write failed), else what the fan shows
 		req := c.After.Pwm
+		// (a cycle without a write attempt found the fan at its request already)
 		if n := len(c.Writes); n > 0 {
 			req = c.Writes[n-1].Value
-		} else if n := len(out.allReq); n > 0 && len(base.Faults)+len(sc.Faults) > 0 {
-			req = out.allReq[n-1]
 		}
 		out.allReq = append(out.allReq, req)
+		out.cyc = append(out.cyc, c)
 	}
 	last := rec.cycles[len(rec.cycles)-1]
 	if last.After == nil {
@@ -448,6 +449,12 @@ func runC04(t *testing.T, sc *world.Scenario) *check.Result {
 				res.Probe("rate-limited-executions-with-changing-curve-value")
 				for i := 1; i < len(seq.allReq); i++ {
 					if d := abs(seq.allReq[i] - seq.allReq[i-1]); d > m {
+						if os.Getenv("VERIF_C04_DUMP") != "" {
+							for j := max(0, i-3); j <= min(len(seq.cyc)-1, i+1); j++ {
+								c := seq.cyc[j]
+								fmt.Fprintf(os.Stderr, "DUMP cycle %d: before=%+v writes=%+v reads=%+v after=%+v\n", j, c.Before, c.Writes, c.PwmReads, c.After)
+							}
+						}
 						res.Violate("C04", "step-bound", "step-bound "+sig+" history="+hc.name, 0, nil,
 							"direct+limit m=%d, min=%d max=%d, history %s: consecutive requests %d → %d (cycles %d, %d) differ by %d", m, lo, hi, hc.name, seq.allReq[i-1], seq.allReq[i], i-1, i, d)
 						break
